@@ -365,24 +365,7 @@ def run(ctx, report):
             if name in M.methods[c]:
                 raise AnalysisError('%s overrides %s (not modelled)' % (c, name))
     fn = mod.method('Expr', 'replace_expr')
-    rets = [n for n in ast.walk(fn) if isinstance(n, ast.Return) and enclosing(n) is fn]
-    if len(rets) == 1 and isinstance(rets[0].value, ast.Call) and u(rets[0].value.func) == 'self.visit':
-        # the callback must return dct[e] when e in dct, else e
-        inner = [n for n in ast.walk(fn) if isinstance(n, ast.FunctionDef) and n is not fn]
-        good = False
-        for g in inner:
-            ps = [x.arg for x in g.args.args]
-            if len(ps) == 2:
-                e, d = ps
-                body = ' ; '.join(u(s) for s in g.body)
-                if ('if %s in %s' % (e, d)) in body and ('return %s[%s]' % (d, e)) in body and body.rstrip().endswith('return %s' % e):
-                    good = True
-        if good:
-            R3.ok('Expr.replace_expr', sample='replace_expr -> self.visit(lambda e: dct[e] if e in dct else e)')
-        else:
-            R3.violation('Expr.replace_expr', 'Expr.replace_expr:callback', 'replace_expr callback is not the map lookup', where(mod, fn))
-    else:
-        R3.violation('Expr.replace_expr', 'Expr.replace_expr', 'replace_expr has its own traversal (does not return self.visit(...))', where(mod, fn))
+    replace_rule(R3, mod, fn)
     fn = mod.method('Expr', 'canonize')
     rets = [n for n in ast.walk(fn) if isinstance(n, ast.Return) and enclosing(n) is fn]
     if len(rets) == 1 and isinstance(rets[0].value, ast.Call) and u(rets[0].value.func) == 'self.visit':
@@ -412,6 +395,76 @@ def run(ctx, report):
                          'op_assoc lists non commutative-associative operators %s' % sorted(extra), where(m, m.assigns['op_assoc'][-1]))
         else:
             R4.ok(m.name + '.op_assoc', sample='%s.op_assoc = %s' % (m.name, vals))
+
+
+def replace_rule(R3, mod, fn):
+    """replace_expr denotes a simultaneous substitution.  The traversal is visit(): bottom-up, the callback sees each node after its children were
+    rebuilt (visit_chk, C15.D2).  A callback that looks sub-expressions up in the caller's map and puts the caller's values in place during that same
+    traversal rewrites in chain: with {a: b, (b+x): c}, (a+x) becomes (b+x) and then c.  Accepted: every traversal of replace_expr looks up in a map whose
+    keys or whose values are fresh identifiers made in replace_expr (marks), and the result is a visit of self (or of a visit of self)."""
+    params = [a.arg for a in fn.args.args]
+    user_map = params[1] if len(params) > 1 else None
+    inner = dict((n.name, n) for n in ast.walk(fn) if isinstance(n, ast.FunctionDef) and n is not fn)
+    fresh = set()
+    for n in ast.walk(fn):
+        if isinstance(n, ast.Assign) and len(n.targets) == 1 and isinstance(n.targets[0], ast.Name) and isinstance(n.value, ast.Call) and u(n.value.func) == 'ExprId':
+            fresh.add(n.targets[0].id)
+    key_fresh, val_fresh, tainted = {}, {}, set()
+    for n in ast.walk(fn):
+        if not isinstance(n, ast.Assign):
+            continue
+        tg, vals = n.targets[0], n.value
+        pairs = list(zip(tg.elts, vals.elts)) if isinstance(tg, ast.Tuple) and isinstance(vals, ast.Tuple) and len(tg.elts) == len(vals.elts) else [(tg, vals)]
+        for t_, v_ in pairs:
+            if isinstance(t_, ast.Subscript) and isinstance(t_.value, ast.Name):
+                d = t_.value.id
+                kf = isinstance(t_.slice, ast.Name) and t_.slice.id in fresh
+                vf = isinstance(v_, ast.Name) and v_.id in fresh
+                key_fresh[d] = key_fresh.get(d, True) and kf
+                val_fresh[d] = val_fresh.get(d, True) and vf
+    visits = [n for n in ast.walk(fn) if isinstance(n, ast.Call) and isinstance(n.func, ast.Attribute) and n.func.attr == 'visit']
+    rets = [n for n in ast.walk(fn) if isinstance(n, ast.Return) and enclosing(n) is fn]
+    problems = []
+    if not visits:
+        problems.append(('Expr.replace_expr', 'replace_expr has its own traversal (no visit call)'))
+    # the result is a visit rooted at self
+    bound = {}
+    for n in ast.walk(fn):
+        if isinstance(n, ast.Assign) and len(n.targets) == 1 and isinstance(n.targets[0], ast.Name) and enclosing(n) is fn:
+            bound[n.targets[0].id] = n.value
+
+    def rooted(e, depth=0):
+        if depth > 4:
+            return False
+        if isinstance(e, ast.Name):
+            return e.id == 'self' or (e.id in bound and rooted(bound[e.id], depth + 1))
+        if isinstance(e, ast.Call) and isinstance(e.func, ast.Attribute) and e.func.attr == 'visit':
+            return rooted(e.func.value, depth + 1)
+        return False
+    if len(rets) != 1 or not (isinstance(rets[0].value, ast.Call) and rooted(rets[0].value) and not isinstance(rets[0].value, ast.Name)):
+        problems.append(('Expr.replace_expr', 'replace_expr does not return a visit of self'))
+    for v in visits:
+        cb = v.args[0] if v.args else None
+        body = None
+        if isinstance(cb, ast.Lambda) and isinstance(cb.body, ast.Call) and isinstance(cb.body.func, ast.Name) and cb.body.func.id in inner and len(cb.body.args) == 2:
+            g = inner[cb.body.func.id]
+            e_, d_ = [x.arg for x in g.args.args]
+            body = ' ; '.join(u(s_) for s_ in g.body)
+            if not (('if %s in %s' % (e_, d_)) in body and ('return %s[%s]' % (d_, e_)) in body and body.rstrip().endswith('return %s' % e_)):
+                problems.append(('Expr.replace_expr:callback', 'the callback %s is not the map lookup (dct[e] if e in dct else e)' % g.name))
+                continue
+            looked = cb.body.args[1]
+            dn = looked.id if isinstance(looked, ast.Name) else None
+            if dn == user_map or dn is None or not (key_fresh.get(dn) or val_fresh.get(dn)):
+                problems.append(('Expr.replace_expr:chained', 'the traversal `%s` looks sub-expressions up in %s and puts its values in place while visit() is still rebuilding the parents: '
+                                 'a value put in place can form another key (chained rewriting instead of a simultaneous substitution)' % (norm(v), dn or u(looked))))
+        else:
+            problems.append(('Expr.replace_expr:callback', 'unmodelled callback %s' % (u(cb) if cb is not None else '<none>')))
+    if problems:
+        for key, msg in problems:
+            R3.violation('Expr.replace_expr', key, msg, where(mod, fn), witness="((a+x)*(b+x)).replace_expr({a: b, (b+x): c}) is (c*c), not ((b+x)*c)" if key.endswith('chained') else None)
+    else:
+        R3.ok('Expr.replace_expr', sample='replace_expr: %d traversals, each over a map with fresh marks as keys or as values' % len(visits))
 
 
 def _mentions_field(cmp, f, mi):
@@ -502,4 +555,6 @@ MUTANTS = [
      '        if cond == self.cond and \\\n                src1 == self.src1 and \\\n                src2 == self.src2:\n', '        if cond == self.cond and \\\n                src1 == self.src1:\n', 'C15.D2'),
     ('compose-copy-shallow', 'miasmx/expression/expression.py',
      '        args = [(a[0].copy(), a[1], a[2]) for a in self.args]\n', '        args = [(a[0], a[1], a[2]) for a in self.args]\n', 'C15.D2'),
+    ('replace-chained', 'miasmx/expression/expression.py', "        e = self.visit(lambda e:my_replace(e, marks))\n        return e.visit(lambda e:my_replace(e, values))", "        return self.visit(lambda e:my_replace(e, dct))", 'C15.D3'),
+    ('replace-marks-are-values', 'miasmx/expression/expression.py', "            marks[k], values[m] = m, dct[k]", "            marks[k], values[m] = dct[k], dct[k]", 'C15.D3'),
 ]
